@@ -316,7 +316,7 @@ func (c *Ctx) Skip(format string, a ...any) {
 
 // ResourceFailure reports whether a command result looks like resource exhaustion rather than a verdict.
 func ResourceFailure(r Result) bool {
-	return r.TimedOut || r.Signal == "killed" || strings.Contains(r.Stderr, "signal: killed") || strings.Contains(r.Stderr, "cannot allocate memory") || strings.Contains(r.Stderr, "resource temporarily unavailable")
+	return r.TimedOut || r.Signal == "killed" || r.Exit == -2 && strings.Contains(r.Stderr, "exec error:") || strings.Contains(r.Stderr, "signal: killed") || strings.Contains(r.Stderr, "cannot allocate memory") || strings.Contains(r.Stderr, "resource temporarily unavailable")
 }
 
 // Harness records a harness/build problem (exit 2, never a VIOLATION).
@@ -420,7 +420,7 @@ func Run(dir string, env []string, timeout time.Duration, stdin string, name str
 	cmd.Cancel = func() error {
 		return syscall.Kill(-cmd.Process.Pid, syscall.SIGKILL)
 	}
-	cmd.WaitDelay = 2 * time.Second
+	cmd.WaitDelay = 15 * time.Second
 	var so, se bytes.Buffer
 	cmd.Stdout, cmd.Stderr = &so, &se
 	if stdin != "" {
@@ -441,6 +441,10 @@ func Run(dir string, env []string, timeout time.Duration, stdin string, name str
 			if ws, ok := ee.Sys().(syscall.WaitStatus); ok && ws.Signaled() {
 				r.Signal = ws.Signal().String()
 			}
+		} else if errors.Is(err, exec.ErrWaitDelay) && cmd.ProcessState != nil {
+			// the process itself has exited; a descendant kept the output pipes open longer than WaitDelay (seen on
+			// an overloaded machine): its own exit status is what counts
+			r.Exit = cmd.ProcessState.ExitCode()
 		} else {
 			r.Exit = -2
 			r.Stderr += "\nexec error: " + err.Error()
